@@ -4,6 +4,7 @@
 mod bridge;
 mod c15;
 mod c16;
+mod clichecks;
 mod explore;
 mod families;
 mod lockstep;
